@@ -116,6 +116,58 @@ def ident_boundary(n1: str, n2: str, use_call: bool) -> bool:
     return (len(matches) > 0) == (n1 == ident)
 
 
+KIND_CONSTS = [1j, 2j, b"a", b"zzz", ..., 5, "a", None, True, 1.0, 1, b""]
+
+
+def const_kinds(p0: bool, p1: bool, p2: bool, p3: bool, s0: bool, s1: bool, s2: bool, s3: bool, nested: bool) -> bool:
+    """
+    Constants of EVERY kind the parser produces - complex, bytes, Ellipsis next to int / float / bool / str / None: the
+    pattern `x = <p>` (or `f(<p>)`) matches the program `x = <s>` (`f(<s>)`) exactly when the two constants have the same
+    type and equal value.
+
+    pre: True
+    post: _
+    """
+    if tick():
+        return True
+    ip, isx = bits(p0, p1, p2, p3), bits(s0, s1, s2, s3)
+    if ip >= len(KIND_CONSTS) or isx >= len(KIND_CONSTS):
+        return True
+    nested = True if nested else False
+    from crosshair.tracers import NoTracing
+    with NoTracing():
+        pc, sc = KIND_CONSTS[ip], KIND_CONSTS[isx]
+        fmt = "f(%r)" if nested else "x = %r"
+        tree = ast.parse(fmt % (sc,))
+        matches, matcher, root = run_matcher(fmt % (pc,), tree)
+        same = type(pc) is type(sc) and pc == sc
+        return bool(matches) == same
+
+
+def class_conflict(n1: str, n2: str, as_call: bool) -> bool:
+    """
+    A _name_ placeholder used as a CLASS name and again as a function / variable name: `class _c_: pass` + `_c_()` (or
+    `x = _c_`) against `class <n1>: pass` + `<n2>()` (`x = <n2>`) with symbolic identifiers matches exactly when n1 == n2.
+
+    pre: len(n1) <= 2 and len(n2) <= 2
+    post: _
+    """
+    if tick():
+        return True
+    cls = ast.ClassDef(name=n1, bases=[], keywords=[], body=[ast.Pass(lineno=2, col_offset=4)], decorator_list=[],
+                       type_params=[], lineno=1, col_offset=0)
+    use = ast.Name(id=n2, ctx=ast.Load(), lineno=3, col_offset=0)
+    if as_call:
+        second = ast.Expr(value=ast.Call(func=use, args=[], keywords=[], lineno=3, col_offset=0), lineno=3, col_offset=0)
+        pattern = "class _c_:\n    pass\n_c_()"
+    else:
+        second = ast.Assign(targets=[ast.Name(id="x", ctx=ast.Store(), lineno=3, col_offset=0)], value=use, lineno=3, col_offset=0)
+        pattern = "class _c_:\n    pass\nx = _c_"
+    tree = ast.Module(body=[cls, second], type_ignores=[])
+    matches, matcher, root = run_matcher(pattern, tree)
+    return bool(matches) == (n1 == n2)
+
+
 def sound_reach(n1: str, n2: str, c1: Const) -> bool:
     """
     Reachability twin: REFUTED (the pattern `_a_ = _a_ + 1` matches for suitable symbolic leaves).
